@@ -392,6 +392,12 @@ func run(c *lib.Ctx, s *eng.S, cs caseT) {
 		c.Count("reference_skipped_empty_matching_pattern")
 		return
 	}
+	if nullableLoopBody(cs.Pat) {
+		// (x*|y)* and the like: backtracking engines (ICU, Perl) end the loop at the first empty iteration, RE2/Go
+		// explores further alternatives; both are legal readings, so such patterns are outside the common subset
+		c.Count("reference_skipped_nullable_loop_body")
+		return
+	}
 	if cs.Pos > 1 && strings.ContainsAny(cs.Pat, "^$") {
 		c.Count("reference_skipped_anchor_with_position")
 		return
@@ -405,6 +411,38 @@ func run(c *lib.Ctx, s *eng.S, cs caseT) {
 	if fmt.Sprint(ref) != fmt.Sprint(cs.LocsPos) {
 		fail("matches-differ-from-reference", fmt.Sprintf("matches %v, Go regexp finds %v", cs.LocsPos, ref))
 	}
+}
+
+// nullableLoopBody reports whether the (generated, escape-free for parentheses) pattern contains a group that is
+// repeated by * + or {m,n} and whose body can match the empty string.
+func nullableLoopBody(pat string) bool {
+	for i := 0; i < len(pat); i++ {
+		if pat[i] != '(' {
+			continue
+		}
+		depth, j := 0, i
+		for ; j < len(pat); j++ {
+			if pat[j] == '(' {
+				depth++
+			} else if pat[j] == ')' {
+				depth--
+				if depth == 0 {
+					break
+				}
+			}
+		}
+		if j >= len(pat)-1 {
+			continue
+		}
+		if q := pat[j+1]; q != '*' && q != '+' && q != '{' {
+			continue
+		}
+		body, err := regexp.Compile("^(?:" + pat[i+1:j] + ")$")
+		if err == nil && body.MatchString("") {
+			return true
+		}
+	}
+	return false
 }
 
 func main() {
